@@ -76,6 +76,13 @@ theorem minAlignOK_of_check {n : Nat} (h : (n == 1 || n == 2 || n == 4 || n == 8
   unfold MinAlignOK
   omega
 
+theorem minAlignOK_of_not_check {n : Nat}
+    (h : ¬ ((!(n == 1 || n == 2 || n == 4 || n == 8 || n == 16)) = true)) : MinAlignOK n := by
+  unfold MinAlignOK
+  simp only [Bool.not_eq_true', Bool.not_eq_false, Bool.or_eq_true, beq_iff_eq, Bool.not_eq_eq_eq_not, Bool.not_true,
+    Bool.or_eq_false_iff, beq_eq_false_iff_ne, ne_eq, not_and, Decidable.not_not] at h
+  omega
+
 /-! ## `Stable`: the ghost state is untouched and every chunk is still there -/
 
 structure Stable (s s' : State) : Prop where
